@@ -629,7 +629,7 @@ func checkC18(c *Case, s *Stats) error {
 			if e := checkStat(st, len(m.Keys), len(m.AllKeys), "loaded("+c.Load+")"); e != nil {
 				return e
 			}
-			if c.Load == "reload" || c.Load == "proto" {
+			if c.Load == "reload" || c.Load == "proto" || c.Load == "over" {
 				if !reflect.DeepEqual(fresh.Stat(), st.Stat()) {
 					return viol("stat", "Stat changed by round trip: %+v vs %+v", fresh.Stat(), st.Stat())
 				}
